@@ -195,6 +195,8 @@ pub fn master(
                 log.lock().unwrap().push("client:Connected".to_string());
                 let mut io = PhysLayer::Verif(pipe);
                 let err = session.run(&mut io).await;
+                // the socket is gone as soon as the session is over (as in tcp/client.rs)
+                drop(io);
                 log.lock().unwrap().push(format!("session-end:{err:?}"));
                 match err {
                     RunError::Stop(StopReason::Shutdown) => break 'outer,
